@@ -4,7 +4,48 @@ import os
 import sys
 
 
+def prune(prop):
+    """Scratch hygiene: drop the bulky artefacts of this property's work directories (TLC state files, trace
+    files, long outputs); small files (specs, cfg, head of the outputs) stay for inspection."""
+    import shutil
+    base = os.path.join(os.path.dirname(os.path.dirname(os.path.abspath(__file__))), '.work', os.environ.get('VERIF_WORK', ''))
+    if not os.path.isdir(base):
+        return
+    for name in os.listdir(base):
+        d = os.path.join(base, name)
+        if not (os.path.isdir(d) and (name.startswith(prop + '_') or name.startswith('bdd_'))):
+            continue
+        for root, dirs, files in os.walk(d, topdown=True):
+            for dn in list(dirs):
+                if dn.startswith('meta_') or dn.startswith('out_'):
+                    shutil.rmtree(os.path.join(root, dn), ignore_errors=True)
+                    dirs.remove(dn)
+            for fn in files:
+                fp = os.path.join(root, fn)
+                try:
+                    if os.path.getsize(fp) > 262144:
+                        if fn.endswith('.out'):
+                            with open(fp, errors='replace') as f:
+                                txt = f.read()
+                            with open(fp, 'w') as f:
+                                f.write(txt[:60000] + '\n...[pruned]...\n' + txt[-60000:])
+                        else:
+                            os.unlink(fp)
+                except OSError:
+                    pass
+
+
 def main():
+    rc = main2()
+    try:
+        if len(sys.argv) > 1 and sys.argv[1] not in ('selftest',) and '--replay' not in sys.argv:
+            prune(sys.argv[1])
+    except Exception:
+        pass
+    return rc
+
+
+def main2():
     ap = argparse.ArgumentParser()
     ap.add_argument('prop')
     ap.add_argument('--tier', default=os.environ.get('VERIF_TIER', 'quick'), choices=['quick', 'thorough'])
